@@ -350,7 +350,8 @@ def run(tier):
     done = 0
     CH = 40000
     for i in range(0, len(cases), CH):
-        if time.time() > deadline:
+        if time.time() > deadline or len(stats['timeouts']) > 150:
+            # (more than 150 watchdog expiries: the verdict cannot change any more, only the wall time)
             cut = True
             break
         chunk = cases[i:i + CH]
@@ -379,7 +380,7 @@ def run(tier):
         seen.add((si, ops))
         k = named(name, f'hang:{fam}:{name}')
         hang_keys[k] = hang_keys.get(k, 0) + 1
-        if hang_keys[k] > 2:
+        if hang_keys[k] > 2 or len(hang_keys) > 4:
             # the same named class already re-checked twice at the long limit; report the rest on the strength of the 10 s watchdog
             chk.violation(k, f'{name}: "{ops}" did not return within 10 s of CPU (class re-checked at 100 s)', {'set': name, 'ops': ops})
             continue
